@@ -27,6 +27,8 @@ type c10case struct {
 
 const sentinel = "// sentinel: this file existed before the run\n"
 
+var longSentinel = sentinel + strings.Repeat("// sentinel filler line, the previous content of this file was longer than the new one\n", 8000)
+
 func validConfig(r *rand.Rand) *cfg.Config {
 	o := gen.DefaultOpts()
 	o.Fail = true
@@ -107,7 +109,7 @@ func checkC10(c *Ctx) error {
 			outPrep: func(d, out string) { _ = os.MkdirAll(out, 0o755); write(filepath.Join(out, "keep.txt"), "keep") }, expectOK: always(false)},
 	}
 	flagSets := [][]string{{}, {"--quiet"}, {"--stub"}, {"--ignore-missing-params"}, {"--ignore-missing-services"}, {"--ignore-missing-params", "--ignore-missing-services"}, {"--quiet", "--stub", "--ignore-missing-params"}, {"-q", "--ignore-missing-services"}}
-	preStates := []string{"absent", "sentinel", "symlink-to-sentinel"}
+	preStates := []string{"absent", "sentinel", "symlink-to-sentinel", "long-sentinel"}
 	type job struct {
 		cs    c10case
 		flags []string
@@ -157,6 +159,10 @@ func checkC10(c *Ctx) error {
 				target = filepath.Join(dir, "real-target.go")
 				write(target, sentinel)
 				_ = os.Symlink(target, out)
+			}
+		case "long-sentinel": // longer than any generated file: a write without truncation would leave a tail
+			if j.cs.outRel == "" {
+				write(out, longSentinel)
 			}
 		}
 		args := []string{"build"}
@@ -238,6 +244,10 @@ func checkC10(c *Ctx) error {
 			case "sentinel":
 				if j.cs.outRel == "" {
 					write(out2, sentinel)
+				}
+			case "long-sentinel":
+				if j.cs.outRel == "" {
+					write(out2, longSentinel)
 				}
 			case "symlink-to-sentinel":
 				if j.cs.outRel == "" {
